@@ -145,8 +145,12 @@ Section Loop.
   Variable beh : nat -> fbeh.
   Variable with_count : bool.
 
-  (** what f does once it is really called *)
-  Definition run_f (k : nat) (s : st) : st :=
+  (** f is really called: the k-th call (k counts calls of f, not of the counter) *)
+  Definition run_f (s0 : st) : st :=
+    let k := ncalls s0 in
+    let s := emit (ECall k (now s0) (has_waiting s0))
+               (mkSt (now s0) (started s0) (start s0) (interval s0) (runAtStart s0) (running s0) (pend s0) (nextid s0)
+                     (call s0) (waiting s0) (dgen s0) (dcur s0) (dfired s0) (realLast s0) (S k) (wasreset s0) (log s0)) in
     match beh k with
     | FRet => cb s
     | FRaise => eb s
@@ -158,19 +162,16 @@ Section Loop.
 
   (** LoopingCall.__call__ (self.call = None; maybeDeferred(self.f); addCallback(cb); addErrback(eb)) *)
   Definition invoke (s : st) : st :=
-    let k := ncalls s in
-    let s1 := emit (ECall k (now s) (has_waiting s))
-                (mkSt (now s) (started s) (start s) (interval s) (runAtStart s) (running s) (pend s) (nextid s) None
-                      (waiting s) (dgen s) (dcur s) (dfired s) (realLast s) (S k) (wasreset s) (log s)) in
+    let s1 := set_clock (pend s) (nextid s) None s in
     if with_count then
       let last := match realLast s1 with
                   | Some l => l
                   | None => if runAtStart s1 then start s1 - interval s1 else start s1
                   end in
       let count := interval_of s1 (now s1) - interval_of s1 last in
-      if 0 <? count then run_f k (emit (ECount count) (set_last (now s1) s1))
+      if 0 <? count then run_f (emit (ECount count) (set_last (now s1) s1))
       else cb (emit ESkip s1)
-    else run_f k s1.
+    else run_f s1.
 
   (** Clock.advance: the calls that are due when the clock is moved run in list order; whatever
       they schedule is strictly later (interval > 0) and nothing pending is cancelled from inside f *)
